@@ -68,9 +68,14 @@ def main():
             meta = json.load(open(mp))
             cat.append(dict(name="seeded-" + d, patch=f"seeded/{d}/patch.diff", checks=meta.get("checks") or [meta["property"]]))
     sel = sys.argv[1:]
+    exact = set()
+    for a in list(sel):
+        if a.startswith("@"):  # @file: exact names, one per line
+            sel.remove(a)
+            exact |= {l.strip() for l in open(a[1:]) if l.strip()}
     bad = 0
     for e in cat:
-        if sel and not any(s in e["name"] for s in sel):
+        if (sel or exact) and not (any(s in e["name"] for s in sel) or e["name"] in exact):
             continue
         r = run_one(e)
         print(("OK   " if r["ok"] else "MISS ") + json.dumps(r), flush=True)
